@@ -80,7 +80,7 @@ def gen(t, tier):
     sc = {'grid': grid, 'gk': gk, 'meta_size': t.pick([[1, 1], [2, 2], [3, 3], [2, 1], [4, 4]]),
           'levels': t.pick(['all', 'all', 'last2', 'first', 'odd', 'range', 'to0', 'from0to0', 'open_to', 'open_from', 'to_big',
                             'list_big', 'res_list', 'res_range']),
-          'coverage': t.weighted([('none', 2), ('bbox', 3), ('lshape', 2), ('multi', 2), ('two', 2), ('tiny', 1), ('edge', 4), ('tilebox', 3)]),
+          'coverage': t.weighted([('none', 2), ('bbox', 3), ('lshape', 2), ('multi', 2), ('two', 2), ('notch', 2), ('tiny', 1), ('edge', 4), ('tilebox', 3)]),
           'cov_seed': [t.choice(1000), t.choice(1000), t.choice(1000), t.choice(1000)],
           'cov_srs': t.pick(['3857', '3857', '3857', '4326']),
           'caches': t.pick([1, 1, 1, 2]),
@@ -180,7 +180,7 @@ def _coverage_geom(sc, gbbox, grid=None):
     """returns (seed-conf coverage dict or None, shapely geometry or None, files to write); with cov_srs 4326 the same
     area is configured in geographic coordinates and mapproxy has to transform it into the grid's SRS"""
     conf, geom, files = _coverage_geom_3857(sc, gbbox, grid)
-    if conf is None or sc.get('cov_srs') != '4326':
+    if conf is None or sc.get('cov_srs') != '4326' or sc['coverage'] == 'notch':
         return conf, geom, files
     gb = geom.bounds
     if min(gb) < -0.999 * 20037508.342789244 or max(gb) > 0.999 * 20037508.342789244:
@@ -257,6 +257,18 @@ def _coverage_geom_3857(sc, gbbox, grid=None):
         poly = Polygon([(px, py), (px + sw, py), (px + sw, py + sh * 0.3), (px + sw * 0.3, py + sh * 0.3),
                         (px + sw * 0.3, py + sh), (px, py + sh)])
         return {'datasource': '/simfs/conf/cov.txt', 'srs': 'EPSG:3857'}, poly, {'/simfs/conf/cov.txt': poly.wkt + '\n'}
+    if kind == 'notch':
+        # two coverages named by one seed entry: an L-shaped polygon and a box inside the polygon's bounding box but outside
+        # the polygon (in the notch of the L)
+        px, py = x0 + a * w * 0.5, y0 + b * h * 0.5
+        sw, sh = (0.2 + c * 0.3) * w, (0.2 + d * 0.3) * h
+        poly = Polygon([(px, py), (px + sw, py), (px + sw, py + sh * 0.3), (px + sw * 0.3, py + sh * 0.3),
+                        (px + sw * 0.3, py + sh), (px, py + sh)])
+        nb = [px + 0.5 * sw, py + 0.5 * sh, px + 0.9 * sw, py + 0.9 * sh]
+        from shapely.ops import unary_union
+        return {'__several__': {'cov': {'datasource': '/simfs/conf/cov.txt', 'srs': 'EPSG:3857'},
+                                'cov2': {'bbox': nb, 'srs': 'EPSG:3857'}}}, \
+            unary_union([poly, box(*nb)]), {'/simfs/conf/cov.txt': poly.wkt + '\n'}
     if kind == 'two':
         # two coverages named by one seed entry (mapproxy joins them into a MultiCoverage)
         b1 = [x0 + a * w * 0.4, y0 + b * h * 0.4, x0 + a * w * 0.4 + 0.15 * w, y0 + b * h * 0.4 + 0.2 * h]
